@@ -463,6 +463,80 @@ func linkTable(e *vlib.Env, w *world, st *stats) {
 	}
 }
 
+// seqTable: processor reuse. One configuration, one processor: a legitimate cross-over packet
+// (child -> child over interfaces 1, 2) is handled first, then a within-segment transit packet
+// with validly MACed hop over interfaces 3 (type i) -> 4 (type e); repeated for every pair, both
+// directions. Whatever the first packet left behind in the processor must not matter.
+func seqTable(e *vlib.Env, w *world, st *stats) {
+	r := vlib.NewRand(uint64(e.Seed) + 177)
+	for inLT := 0; inLT <= 4; inLT++ {
+		for egLT := 0; egLT <= 4; egLT++ {
+			for cd := 0; cd < 2; cd++ {
+				for first := 0; first < 2; first++ { // 0: cross-over first, 1: peering hop first
+					now := time.Now()
+					cfg := asCfg{ia: 0x1ff0000000110, key: randKey(r)}
+					cfg.ifs = []ifaceCfg{{id: 0, scope: scInt, up: true, link: 0},
+						{id: 1, scope: scExt, lt: ltChild, up: true, link: 10}, {id: 2, scope: scExt, lt: ltChild, up: true, link: 11},
+						{id: 3, scope: scExt, lt: inLT, up: true, link: 12}, {id: 4, scope: scExt, lt: egLT, up: true, link: 13},
+						{id: 5, scope: scExt, lt: ltPeer, up: true, link: 14}}
+					mk := func(consDir bool, n int, peer bool) segSpec {
+						s := segSpec{consDir: consDir, peer: peer, beta0: uint16(r.U64()), ts: uint32(now.Unix() - 100)}
+						for c := 0; c < n; c++ {
+							s.hops = append(s.hops, hopSpec{consIn: uint16(r.Range(401, 600)), consEg: uint16(r.Range(401, 600)), exp: 63, key: randKey(r)})
+						}
+						return s
+					}
+					set := func(s *segSpec, c int, tin, teg uint16) {
+						h := &s.hops[c]
+						if s.consDir {
+							h.consIn, h.consEg = tin, teg
+						} else {
+							h.consIn, h.consEg = teg, tin
+						}
+						h.key = cfg.key
+					}
+					fin := func(sc *scenario) {
+						sc.rechain()
+						sc.srcIA, sc.dstIA = 0x1ff0000000111, 0x1ff0000000112
+						sc.srcHost, sc.dstHost = []byte{10, 0, 0, 1}, []byte{10, 0, 0, 2}
+						sc.l4proto, sc.l4 = 17, []byte{0, 1, 0, 2, 0, 8, 0, 0}
+					}
+					// packet 1
+					p1 := &scenario{now: now, pathType: 1, kind: "seq/first", cfg: cfg}
+					if first == 0 {
+						p1.segs = []segSpec{mk(false, 2, false), mk(true, 2, false)}
+						p1.local, p1.xover, p1.currHF, p1.currINF = 1, true, 1, 0
+						set(&p1.segs[0], p1.segs[0].cons(1), 1, 0)
+						set(&p1.segs[1], p1.segs[1].cons(0), 0, 2)
+						p1.expect = "fwd 2 "
+					} else {
+						p1.segs = []segSpec{mk(false, 2, true), mk(true, 2, true)}
+						p1.local, p1.currHF, p1.currINF = 1, 1, 0
+						set(&p1.segs[0], p1.segs[0].cons(1), 1, 5) // child -> peer
+						p1.expect = "fwd 5 "
+					}
+					p1.inLink, p1.inIfID, p1.inScope = 10, 1, scExt
+					fin(p1)
+					emit(e, w, st, p1, "seq-first")
+					// packet 2: within one segment, 3 -> 4
+					p2 := &scenario{now: now, pathType: 1, kind: "seq/second", cfg: cfg}
+					p2.segs = []segSpec{mk(cd == 1, 3, false)}
+					p2.local, p2.currHF, p2.currINF = 1, 1, 0
+					set(&p2.segs[0], p2.segs[0].cons(1), 3, 4)
+					p2.inLink, p2.inIfID, p2.inScope = 12, 3, scExt
+					fin(p2)
+					if allowedWithin[[2]int{inLT, egLT}] {
+						p2.expect = "fwd 4 "
+					} else {
+						p2.expect = fmt.Sprintf("slow 4 48 %d ", p2.hopPtr(1))
+					}
+					emit(e, w, st, p2, "seq-second")
+				}
+			}
+		}
+	}
+}
+
 // tableScenario builds a valid packet whose only open question is the interface pair.
 func tableScenario(r *vlib.Rand, inLT, egLT int, xover bool, inSc, egSc int, consDir, postX bool) *scenario {
 	now := time.Now()
